@@ -3,6 +3,7 @@
   Property theorems only.
 -/
 import NextestModel.Model.Classify
+import NextestModel.Gen.Tables
 namespace NextestModel.C03
 open NextestModel.Classify NextestModel.Dispatcher
 
@@ -75,5 +76,11 @@ theorem flaky_iff (attempts : List Res) (last : Res) (h : attempts.getLast? = so
     · simp [hs, hl]; omega
     · have : attempts.length = 1 := by omega
       simp [hs, this]
+
+/-- **a failure is reported with the signal that ended the test, under that signal's own name** (helpers.rs `signal_str`, as read
+    on this run; the status line shows `SIG<name>` for a number in the table and the bare number otherwise): every number the
+    table names is named as POSIX names it on every platform nextest runs on, and no number is listed twice -/
+theorem signal_names_are_the_signals :
+    (∀ p ∈ Gen.signalNames, portableSignalName p.1 = some p.2) ∧ (Gen.signalNames.map (·.1)).Nodup := by decide
 
 end NextestModel.C03
